@@ -258,11 +258,12 @@ PROPS['C23'] = {
     'parts': [K('kani:checkpoint', 'sdk', [H('c23_checkpoint_contract')], timeout=900, functions=[('sdk/src/context.rs', 'check_progress')],
                 stubs=['std::panic::catch_unwind -> call the closure (Kani cannot compile the unwinding intrinsic)']),
               V('verus:datahash_verify', 'datahash_verify'),
-              B('native:cancel_every_callback', 'sdk', [{'name': 'c23_cancel_at_every_callback', 'tier': 'quick'}, {'name': 'c23_cancel_at_every_callback_all_formats', 'tier': 'quick'}], functions=[('sdk/src/claim.rs', 'verify_hash_binding')],
-                bounds='every callback index of a full run: read CA.jpg, C.jpg, video1.mp4; sign IMG_0003.jpg, libpng-test.png, video1_no_manifest.mp4')],
+              B('native:cancel_every_callback', 'sdk', [{'name': 'c23_cancel_at_every_callback', 'tier': 'quick'}, {'name': 'c23_cancel_at_every_callback_all_formats', 'tier': 'quick'}, {'name': 'c23_cancel_fragment_sidecar_ingredient', 'tier': 'quick'}],
+                functions=[('sdk/src/claim.rs', 'verify_hash_binding'), ('sdk/src/ingredient.rs', 'update_validation_status'), ('sdk/src/assertions/bmff_hash.rs', 'verify_stream_segment_with_progress')],
+                bounds='every callback index of a full run: reads and signs of fixtures of 13 formats (data, box and BMFF hash), fragmented read, sidecar sign and read, ingredient import and import+sign')],
     'trusted_base': TB_KANI + TB_VERUS[2:],
     'rule': 'proof obligation = CBMC check of a complete harness, or one Verus function query',
-    'not_covered': ['cancel() from another thread at random delays', 'sign / ingredient flows end to end'],
+    'not_covered': ['cancel() from another thread at random delays', 'the FetchingOCSP / time-stamp checkpoints (need a live responder)', 'async flavours'],
 }
 
 PROPS['C10'] = {
@@ -329,11 +330,11 @@ PROPS['C13'] = {
                                            H('c13_inclusion_one_range', 'bounded', '<= 3 data bytes; range start and length unconstrained u64')],
                 kind='bounded', timeout=1800, unwindset=['memcmp.0:8'], functions=[('sdk/src/utils/hash_utils.rs', 'hash_stream_by_alg_with_progress_impl')],
                 stubs=['Hasher::update -> byte log', 'Hasher::finalize -> constant', 'thread spawn / mpsc channel / send / recv -> assume(false)', 'catch_unwind -> call']),
-              B('native:range_hash_exact', 'sdk', [T('c13_range_hash_exact_small_domain')], functions=[('sdk/src/utils/hash_utils.rs', 'hash_stream_by_alg_with_progress_impl')],
-                bounds='data length 0..=5 (7), pairs of ranges with start,len in 0..=len+1 plus {2^32,2^63,2^64-1}, optional marker(s), both modes, buffer sizes {1,2^20} (thorough {1,2,3,2^20}; 3 algorithms)')],
+              B('native:range_hash_exact', 'sdk', [T('c13_range_hash_exact_small_domain'), T('c13_chunk_size_independence')], functions=[('sdk/src/utils/hash_utils.rs', 'hash_stream_by_alg_with_progress_impl')],
+                bounds='data length 0..=5 (7), pairs of ranges with start,len in 0..=len+1 plus {2^32,2^63,2^64-1}, optional marker(s), both modes, buffer sizes {1,2^20} (thorough {1,2,3,2^20}; 3 algorithms); chunking: data length 1..=24 (40), one range, every buffer size 1..=length+1')],
     'trusted_base': TB_KANI + ['the reference function `reference()` in kani/hash_utils.rs (the statement, executable)'],
     'rule': 'evaluations = CBMC checks decided + native (data, ranges, mode, alg, buffer) tuples compared with the reference digest; non-trivial = at least one non-empty in-range range',
-    'not_covered': ['schedules quantifier beyond what native threads happen to do', 'streams longer than 7 bytes', 'more than 3 ranges'],
+    'not_covered': ['schedules quantifier beyond what native threads happen to do', 'streams longer than 7 bytes with more than one range (one range: 40 bytes)', 'more than 3 ranges'],
 }
 
 
